@@ -21,7 +21,7 @@ ASSUMPTIONS = ['reference interpreter vlib/refmodel.py (cross-checked by C16, wh
                'does not use it)', 'one-time shuffles are scripted through the rng '
                'parameter; tile(shuffle=True) uses numpy\'s legacy seeded stream']
 SHARD_TIMEOUT = {'quick': 600, 'thorough': 7000}
-ASPECTS = ('iter', 'len', 'copy', 'partial', 'scramble', 'neighbour')
+ASPECTS = ('iter', 'len', 'copy', 'partial', 'scramble', 'neighbour', 'interleave')
 
 
 def shards(tier, seed):
